@@ -1,6 +1,7 @@
 """C14 - a validating writer emits only conforming rows; its output validates again."""
 import csv
 import io
+import os
 
 from cutplace import validio
 
@@ -46,13 +47,15 @@ SHARD = 250
 RULE = ("sequences of 0..8 rows written by write_row calls or - half of the cases - by a random split into write_row and "
         "write_rows calls (a write_rows call stops at its first rejected row; calls after a rejection continue the file), mixing accepted rows, field errors, wrong item counts and duplicates x "
         "delimited and fixed CIDs (Text/Choice fields, lengths, allowed characters; line delimiter lf/cr/crlf/any/none "
-        "for fixed) x header 0..1 x target {text stream, stream encoded in ASCII with rows carrying a character it cannot represent} x IsUnique / DistinctCount checks; observed: outcome of every call, the final stream "
+        "for fixed) x header 0..1 x target {text stream, stream encoded in ASCII with rows carrying a character it cannot represent, a file the writer opens itself (UTF-8) with byte order mark / Unicode line separator characters as data, read back by path} x IsUnique / DistinctCount checks; observed: outcome of every call, the final stream "
         "text, the close verdict; the produced text is then read back under a freshly loaded copy of the CID and must "
         "yield exactly the accepted rows (modulo padding) without a rejection. Non-trivial: at least one accepted and "
         "one rejected call. Distinct = distinct (CID, rows).")
 TRUSTED = ["csv writer model (Model/Delimited.v, validated in C12)", "os.linesep is '\\n'"]
 ASSUMPTIONS = ["header rows (written unvalidated) have the right item count and fit the field widths; otherwise FixedRowWriter asserts"]
 
+import common as _C
+TMP = os.path.join(_C.BUILD, "C14", "tmp")
 SEP = {"lf": "\n", "cr": "\r", "crlf": "\r\n", "any": "\n", None: "\n", "none": ""}
 
 
@@ -60,7 +63,13 @@ def make_case(inp):
     spec, rows = inp["spec"], inp["rows"]
     cid = V.build_cid(spec)
     ascii_target = bool(inp.get("ascii"))
-    target = io.TextIOWrapper(io.BytesIO(), encoding="ascii", newline="") if ascii_target else io.StringIO(newline="")
+    file_target = bool(inp.get("file"))
+    if file_target:
+        # the writer is given a path: it opens the file itself, with the encoding the CID declares (UTF-8 here)
+        os.makedirs(TMP, exist_ok=True)
+        target = os.path.join(TMP, "out_%d.txt" % os.getpid())
+    else:
+        target = io.TextIOWrapper(io.BytesIO(), encoding="ascii", newline="") if ascii_target else io.StringIO(newline="")
     writer = validio.Writer(cid, target)
     writes = []
     ops = inp.get("ops") or [["row", r] for r in rows]
@@ -76,13 +85,17 @@ def make_case(inp):
     if ascii_target:
         target.flush()
         text = target.buffer.getvalue().decode("ascii")
-    else:
+    elif not file_target:
         text = target.getvalue()
     closed = None
     try:
         writer.close()
     except Exception as e:  # noqa
         closed = V.canon_error(e, spec)
+    if file_target:
+        with open(target, "r", encoding="utf-8", newline="") as fh:
+            text = fh.read()
+        os.remove(target)
     fixed = spec["format"] == "fixed"
     ws = V.widths(spec) if fixed else []
     sep = SEP[spec.get("line_delimiter")] if fixed else ""
@@ -91,7 +104,7 @@ def make_case(inp):
     coq_in = P(V.coq_cid(spec), B(fixed), L(ws, Nat), S(sep), coq_ops, B(ascii_target))
     coq_obs = P(L(writes, lambda e: O(e, V.coq_err)), "(Some %s)" % S(text), O(closed, V.coq_err))
     n_ok = sum(1 for w in writes if w is None)
-    tags = [spec["format"], "header%d" % spec.get("header", 0)] + (["ascii-target"] if ascii_target else []) + (["ld-" + str(spec.get("line_delimiter"))] if fixed else [])
+    tags = [spec["format"], "header%d" % spec.get("header", 0)] + (["ascii-target"] if ascii_target else []) + (["file-target"] if file_target else []) + (["ld-" + str(spec.get("line_delimiter"))] if fixed else [])
     return {"coq": P(coq_in, coq_obs), "obs": obs, "nontrivial": 0 < n_ok < len(writes), "tags": tags}
 
 
@@ -117,7 +130,23 @@ def direct_oracle(inp, obs):
         return "stream is %r but the accepted rows encode as %r" % (obs["text"], want)
     # reading the output back under the same CID accepts every row and returns the written values
     fresh = V.build_cid(spec)
-    back = V.run_reader(fresh, spec, obs["text"], "yield", None)
+    if inp.get("file"):
+        # through a file again: written as the CID's encoding says, read by path
+        os.makedirs(TMP, exist_ok=True)
+        path = os.path.join(TMP, "back_%d.txt" % os.getpid())
+        with open(path, "w", encoding="utf-8", newline="") as fh:
+            fh.write(obs["text"])
+        outs, raised = [], None
+        try:
+            for r in validio.rows(fresh, path, on_error="yield"):
+                outs.append(r)
+        except Exception as e:  # noqa
+            raised = e
+        os.remove(path)
+        back = {"outs": [{"err": V.canon_error(o, spec)} if isinstance(o, Exception) else {"row": list(o)} for o in outs],
+                "raised": None if raised is None else V.canon_error(raised, spec)}
+    else:
+        back = V.run_reader(fresh, spec, obs["text"], "yield", None)
     got = [o.get("row") for o in back["outs"]]
     if any("err" in o for o in back["outs"]) or (back["raised"] is not None and back["raised"]["family"] != "FCheck"):
         return "reading the written data back is rejected: %r" % ([o for o in back["outs"] if "err" in o][:1] or back["raised"])
@@ -157,7 +186,18 @@ def gen_inputs(tier, rnd):
                     row = list(rnd.choice(rows[spec["header"]:] or [row]))
             rows.append(row)
         case = {"spec": spec, "rows": rows}
-        if rnd.random() < 0.25:
+        if rnd.random() < 0.2:
+            # the target is a file the writer opens itself (encoding UTF-8 as declared); characters that some decoders
+            # treat specially are data like any other, also at the very start of the file
+            case["file"] = True
+            spec["encoding"] = "utf-8"
+            for i in range(spec["header"], len(rows)):
+                if rows[i] and rnd.random() < 0.5:
+                    rows[i] = list(rows[i])
+                    j = 0 if rnd.random() < 0.7 else rnd.randrange(len(rows[i]))
+                    special = rnd.choice(["\ufeff", "\ufeff", "\u2028", "\x85", "\ufffe"])
+                    rows[i][j] = special + rows[i][j][1:] if rows[i][j] else special
+        elif rnd.random() < 0.25:
             # the target is a stream encoded in ASCII; some rows carry a character it cannot represent, mostly not in
             # the first item: such a row is refused as a whole
             case["ascii"] = True
